@@ -1,6 +1,7 @@
 package main
 
 import (
+	"os"
 	"fmt"
 	"go/token"
 	"go/types"
@@ -133,6 +134,8 @@ type VC struct {
 	obAsserts  map[int]bool // assertions that restate an earlier obligation
 	seenRef    map[string]bool
 	seenRefs   []string
+	boundNames []string // variables bound by the contract quantifiers being evaluated
+	quantSides [][]string
 	immRefs    map[int][]string // per object type: references an immutable field has been read through
 	seenRefTid map[string]int // static struct type id of references to whole-object structs
 	pure       int // >0 while evaluating a quantifier body
@@ -257,8 +260,11 @@ func (vc *VC) fresh(prefix, sort string) string {
 	return n
 }
 func (vc *VC) def(prefix, sort, term string) string {
-	if isAtom(term) || vc.pure > 0 {
-		return term // inside a quantifier body nothing may be named (bound variables would escape)
+	if isAtom(term) || (vc.pure > 0 && (vc.mentionsBound(term) || os.Getenv("GVC_HOIST") == "")) {
+		// inside a quantifier body nothing that depends on a bound variable may be named; ground
+		// subterms could be (GVC_HOIST=1), but hypotheses and goals then name the same memory
+		// cell differently and E-matching has to rediscover the equality: measured 50x slower
+		return term
 	}
 	n := vc.fresh(prefix, sort)
 	vc.asserts = append(vc.asserts, fmt.Sprintf("(= %s %s)", n, term))
@@ -274,8 +280,28 @@ func (vc *VC) declareFun(name, sig string) {
 	vc.declared[name] = true
 	vc.decls = append(vc.decls, fmt.Sprintf("(declare-fun %s %s)", name, sig))
 }
+// mentionsBound: the term depends on a variable bound by an enclosing contract quantifier.
+func (vc *VC) mentionsBound(term string) bool {
+	for _, b := range vc.boundNames {
+		if strings.Contains(term, b) {
+			return true
+		}
+	}
+	return false
+}
+
 func (vc *VC) assume(st *State, f string) {
-	if f == "true" || vc.pure > 0 {
+	if f == "true" {
+		return
+	}
+	if vc.pure > 0 && vc.mentionsBound(f) {
+		// a typed-memory fact about a value read under a contract quantifier: it becomes a side
+		// condition of that quantifier's body (see quantBody)
+		// (only facts that type a reference: they decide aliasing; scalar range facts are left out, they
+		// cost instantiations and were never needed)
+		if n := len(vc.quantSides); n > 0 && os.Getenv("GVC_NOSIDES") == "" && strings.Contains(f, "(typ ") {
+			vc.quantSides[n-1] = append(vc.quantSides[n-1], f)
+		}
 		return
 	}
 	vc.asserts = append(vc.asserts, implies(st.guard, f))
@@ -504,7 +530,7 @@ func (vc *VC) tid(t types.Type) int { return vc.eng.tid(t) }
 // is the term (elem_w off idx), defined by a triggered axiom, so that quantified contract clauses
 // over element indices are instantiated by E-matching on the very terms the code produces.
 func (vc *VC) elemIdx(off, idx string, w int) string {
-	if w == 1 {
+	if w == 1 && (os.Getenv("GVC_ELEM1") == "" || isConstInt(idx)) {
 		return plusT(off, idx)
 	}
 	name := fmt.Sprintf("elem_%d", w)
@@ -1004,4 +1030,9 @@ func (vc *VC) implementsTerm(tag string, iface types.Type) string {
 	vc.eng.noteIface(iface)
 	vc.ifaceFacts[fmt.Sprint(iid)] = true
 	return fmt.Sprintf("(implements %s %d)", tag, iid)
+}
+
+func isConstInt(s string) bool {
+	_, err := parseInt(s)
+	return err == nil
 }
